@@ -78,6 +78,23 @@ fn unrenamed_awkward_name(di: &syn::DeriveInput) -> bool {
     }
 }
 
+/// Does the item quote a path that is one in type position only (`"Conv<u8>::go"`, `"Vec<String>"`)? Darling reads a
+/// quoted callable as a `syn::Path` and splices it into call position as written; there such a path is the user's
+/// syntax error (rustc reports it at the string, suggesting the turbofish), not a statement about the derive.
+fn quotes_type_position_path(di: &syn::DeriveInput) -> bool {
+    fn walk(ts: proc_macro2::TokenStream) -> bool {
+        ts.into_iter().any(|tt| match tt {
+            proc_macro2::TokenTree::Group(g) => walk(g.stream()),
+            proc_macro2::TokenTree::Literal(l) => match syn::parse2::<syn::LitStr>(proc_macro2::TokenTree::Literal(l).into()) {
+                Ok(s) => syn::parse_str::<syn::Path>(&s.value()).is_ok() && syn::parse_str::<syn::ExprPath>(&s.value()).is_err(),
+                Err(_) => false,
+            },
+            _ => false,
+        })
+    }
+    walk(quote::quote!(#di))
+}
+
 pub struct Verdict {
     pub impls: usize,
     pub errors: usize,
@@ -100,6 +117,14 @@ pub fn check_one(tr: &str, di: &syn::DeriveInput, src_len: usize) -> Result<Verd
     let ces = compile_errors(out.clone());
     let file: syn::File = match syn::parse2(out.clone()) {
         Ok(f) => f,
+        Err(_) if ces.is_empty() && quotes_type_position_path(di) => {
+            // one block all the same: attributes, `impl`, a header, a braced body - and nothing after it
+            let toks: Vec<proc_macro2::TokenTree> = out.clone().into_iter().collect();
+            let impls = toks.iter().filter(|t| matches!(t, proc_macro2::TokenTree::Ident(i) if i == "impl")).count();
+            let braced_last = matches!(toks.last(), Some(proc_macro2::TokenTree::Group(g)) if g.delimiter() == proc_macro2::Delimiter::Brace);
+            ensure!(impls == 1 && braced_last, "c06:output-not-items", "derive({}) output is no single block: {}", tr, out.to_string().chars().take(300).collect::<String>());
+            return Ok(Verdict { impls: 1, errors: 0 });
+        }
         Err(e) => fail!(
             "c06:output-not-items",
             "derive({}) output does not parse as items: {} :: {}",
